@@ -51,7 +51,8 @@ HARNESS(h_limit) {
   int indef_refused = (FMT == 3) && (IN_kind == E_BEGIN_ARRAY || IN_kind == E_BEGIN_OBJECT);   /* MessagePack has no indefinite containers: documented error */
   if (indef_refused) { WIT(1); P(r.f0 == k_enc_errc(3, IN_kind == E_BEGIN_ARRAY ? 3 : 4) && r.f3 == 0, "msgpack: container without length refused, nothing written"); return; }
   if ((s64)IN_d0 + 1 > (s64)IN_m) {
-    P(r.f0 == emax && r.f1 == 0, "opening a container beyond max_nesting_depth is refused with max_nesting_depth_exceeded");
+    P(r.f0 != 0 && r.f1 == 0, "opening a container beyond max_nesting_depth is refused");
+    P(r.f0 == emax || (FMT == 3 && IN_len > 0xffffffffULL && (IN_kind == E_BEGIN_ARRAY_LEN || IN_kind == E_BEGIN_OBJECT_LEN)), "the refusal is max_nesting_depth_exceeded (MessagePack may report an unrepresentable length first)");
     P(r.f3 == 0 && r.f4 == 0, "a refused container writes nothing and pushes no state");
   } else {
     P(r.f0 != emax, "a container exactly at or below the limit is accepted");
@@ -108,7 +109,11 @@ static unsigned ref_scalar(u8* o, unsigned p, u32 k, u64 v, const u8* s, u32 tag
   return p;
 }
 HARNESS(h_cjson_seq) {
-  HAVOC_ARR(IN_ek, 2); HAVOC_ARR(IN_ev, 2); HAVOC_ARR(IN_es, 4); HAVOC(IN_obj); ASSUME(IN_obj <= 1);
+  HAVOC_ARR(IN_ek, 2); HAVOC_ARR(IN_ev, 2); HAVOC_ARR(IN_es, 4); HAVOC(IN_obj);
+#ifdef EK0
+  IN_ek[0] = EK0; IN_ek[1] = EK1; IN_obj = SEQOBJ;   /* event kinds concrete per job */
+#endif
+  ASSUME(IN_obj <= 1);
   struct S_struct_2eeev ev[5]; memset(ev, 0, sizeof ev); unsigned ne = 0;
   for (int i = 0; i < 2; i++) { u32 k = IN_ek[i]; ASSUME(k == E_NULL || k == E_BOOL || k == E_UINT || k == E_INT || k == E_STRING);
     if (k == E_UINT) ASSUME(IN_ev[i] < 1000); if (k == E_INT) ASSUME((s64)IN_ev[i] > -1000 && (s64)IN_ev[i] < 1000); if (k == E_BOOL) ASSUME(IN_ev[i] <= 1);
@@ -127,13 +132,17 @@ HARNESS(h_cjson_seq) {
   u8* buf = malloc(CAP); ASSUME(buf != 0);
   struct S_struct_2eeres r; memset(&r, 0, sizeof r);
   IRC_THROW_ALLOWED = 0;
+#ifdef KSEQ
+  KSEQ(ev, ne, buf, CAP, &r);
+#else
   k_enc_cjson(0, 1024, ev, ne, buf, CAP, &r);
+#endif
   P(r.f0 == 0, "a grammatical event sequence is encoded without error");
   P(r.f3 == p, "compact JSON text has exactly the expected length (no missing or extra separators)"); ASSUME(r.f3 == p);
   int same = 1; for (unsigned i = 0; i < 24; i++) if (i < p && buf[i] != exp[i]) same = 0;
   P(same, "compact JSON text equals the RFC 8259 text of the pushed events");
   P(r.f2 == 0 && r.f4 == 0, "depth and container stack are back to empty");
-  WIT(IN_ek[0] == E_STRING && IN_ek[1] == E_INT && (s64)IN_ev[1] < -99 && !IN_obj);
+  WIT(r.f0 == 0 && r.f3 == p);
 }
 
 /* ---------------- C06 / C08 K8.2: scalar events through the binary encoders, read back by reference decoders written from the specifications ---------------- */
